@@ -365,6 +365,19 @@ pub fn check(ctx: &mut Ctx) -> i32 {
             }
         }
     }
+    // valid commands with extreme field values in *stateful* sequences (TTLs, clock advances, CAS tokens of live
+    // and of dead items, counters at the wrap): no panic, no command that never returns (a case that does not
+    // come back within 15 s is re-run in a fresh process and reported if it hangs there too)
+    {
+        let hp = crate::props::hist_family::c10_aux();
+        let mut hctx = Ctx::new("C10", ctx.tier, "exploration");
+        hctx.hang_secs = Some(15);
+        let code = crate::histprop::explore_all(&hctx, &hp, &acc);
+        if code != EXIT_OK {
+            write_evidence(ctx, &acc, RULE, ASSUME, 1);
+            return code;
+        }
+    }
     if let Some(code) = crate::props::l3phases::c10_socket_phase(ctx, &acc) {
         if code != EXIT_OK {
             write_evidence(ctx, &acc, RULE, ASSUME, 1);
